@@ -89,6 +89,11 @@ pub struct Ctx {
     pub cpus: u32,
     pub cpu_calls: u32,
     pub pid_value: i32,
+    /// != 0: an environment variable the process does not have may appear to be set (decided
+    /// per name from this seed, the same answer every time it is asked)
+    pub env_fuzz: u64,
+    /// names asked for through getenv inside the context
+    pub env_reads: Vec<String>,
 
     // results
     pub seq: u64,
@@ -136,6 +141,8 @@ impl Ctx {
             log: vec![],
             log_seq: vec![],
             log_enabled: true,
+            env_fuzz: 0,
+            env_reads: vec![],
             write_set: vec![],
             fired: vec![],
             clock_calls: 0,
@@ -1298,6 +1305,67 @@ pub unsafe extern "C" fn getpid() -> libc::pid_t {
             ctx.pid_calls += 1;
             ctx.note("getpid".to_string());
             ctx.pid_value
+        }
+    }
+}
+
+/// `getenv`: what the code under test asks its environment is logged; with `env_fuzz` a
+/// variable the process does not have may appear to be set ("1", "0", "" — decided per name
+/// from the seed): nothing the library promises may depend on a variable nobody documented.
+/// Variables that steer the runtime or that the simulator controls elsewhere are left alone.
+#[no_mangle]
+pub unsafe extern "C" fn getenv(name: *const c_char) -> *mut c_char {
+    // the real lookup, without calling into libc's getenv (this symbol shadows it)
+    unsafe fn lookup(name: &[u8]) -> *mut c_char {
+        extern "C" {
+            static environ: *const *const c_char;
+        }
+        let mut p = environ;
+        if p.is_null() {
+            return std::ptr::null_mut();
+        }
+        while !(*p).is_null() {
+            let e = std::ffi::CStr::from_ptr(*p).to_bytes();
+            if e.len() > name.len() && &e[..name.len()] == name && e[name.len()] == b'=' {
+                return (*p).add(name.len() + 1) as *mut c_char;
+            }
+            p = p.add(1);
+        }
+        std::ptr::null_mut()
+    }
+    if name.is_null() {
+        return std::ptr::null_mut();
+    }
+    let n = std::ffi::CStr::from_ptr(name).to_bytes();
+    let real = lookup(n);
+    match enter() {
+        None => real,
+        Some(g) => {
+            let ctx = &mut *g.ctx;
+            let nm = String::from_utf8_lossy(n).into_owned();
+            if !ctx.env_reads.contains(&nm) {
+                ctx.env_reads.push(nm.clone());
+            }
+            let steered = ["RUST_", "MSIM_", "LD_", "MALLOC_", "GLIBC_", "XDG_"].iter().any(|p| nm.starts_with(p)) || ["TMPDIR", "TMP", "TEMP", "HOME", "PATH", "LANG", "TZ", "USER"].contains(&nm.as_str()) || nm.starts_with("LC_");
+            if !real.is_null() || ctx.env_fuzz == 0 || steered {
+                ctx.note(format!("getenv {nm} -> {}", if real.is_null() { "unset" } else { "set" }));
+                return real;
+            }
+            let mut h = ctx.env_fuzz ^ 0xcbf29ce484222325;
+            for b in n {
+                h = (h ^ *b as u64).wrapping_mul(0x100000001b3);
+            }
+            let v: &'static [u8] = match (h >> 20) % 8 {
+                0 | 1 => b"1\0",
+                2 => b"0\0",
+                3 => b"\0",
+                _ => {
+                    ctx.note(format!("getenv {nm} -> unset"));
+                    return std::ptr::null_mut();
+                }
+            };
+            ctx.note(format!("getenv {nm} -> appears as {:?}", String::from_utf8_lossy(&v[..v.len() - 1])));
+            v.as_ptr() as *mut c_char
         }
     }
 }
